@@ -558,6 +558,11 @@ def verify_config(contract, cfg, both=False, z3_timeout=None):
                 bad, tried, bound = _rp.bounded_fragment(cx, contract, limit=1500)
             except Exception as e:
                 bad, tried, bound = [], 0, f'crashed: {type(e).__name__}: {e}'
+            if tried == 0 and getattr(contract, 'crosscheck_with_bounded', False):
+                try:
+                    bad, tried, bound = contract.bounded(cx)         # leaves: through the public interface of a generated grammar
+                except Exception as e:
+                    bad, tried, bound = [], 0, f'crashed: {type(e).__name__}: {e}'
             res.stats['cpython_crosscheck'] = {'tried': tried, 'bound': bound, 'disagreements': len(bad)}
             if bad:
                 res.error = ('crash', f'UNSOUND: all VCs proved but the native run disagrees with the reference: {bad[0]}')
